@@ -81,35 +81,232 @@ Proof.
   exfalso. apply (Hmin p' q'); [lia | exact L | exact Hin'].
 Qed.
 
-(* the integer search used for results with a larger denominator: it establishes that no denominator <= 400 works
-   (not full minimality: that part rests on the theorems about the translated code + the correspondence) *)
-Lemma none_below_sound ln ld hn hd : (0 < ld)%Z -> (0 < hd)%Z -> forall fuel q, (0 < q)%Z ->
-  none_below ln ld hn hd q fuel = true ->
-  forall p' q', (q <= q' < q + Z.of_nat fuel)%Z -> ~ ((ln * q' < p' * ld)%Z /\ (p' * hd < hn * q')%Z).
+(* round 6: the Farey-neighbour criterion used for results with a larger denominator decides minimality for EVERY
+   denominator (the soundness does not use the bound 400 and not the correctness of the Euclid loop: the criterion
+   re-checks p*b - a*q = 1 itself) *)
+Lemma cross_lt_l (a b ln L p' Q : Z) : (0 < L)%Z -> (0 < b)%Z -> (0 < Q)%Z ->
+  (a * L <= ln * b)%Z -> (ln * Q < p' * L)%Z -> (a * Q < p' * b)%Z.
 Proof.
-  intros Hld Hhd. induction fuel as [|f IH]; intros q Hq H p' q' R [A B]; [lia|].
-  cbn [none_below] in H.
-  destruct (Z.ltb_spec ((ln * q / ld + 1) * hd) (hn * q)) as [L|L]; [discriminate|].
-  destruct (Z.eq_dec q' q) as [->|N].
-  - assert (ln * q / ld + 1 <= p')%Z.
-    { assert (ln * q / ld < p')%Z; [|lia]. apply Z.div_lt_upper_bound; lia. }
-    nia.
-  - apply (IH (q + 1)%Z ltac:(lia) H p' q'); [lia | split; assumption].
+  intros HL Hb HQ A B.
+  apply (Z.mul_lt_mono_pos_r L); [exact HL|].
+  apply Z.le_lt_trans with (ln * b * Q)%Z.
+  - replace (a * Q * L)%Z with (a * L * Q)%Z by ring. apply Z.mul_le_mono_nonneg_r; lia.
+  - replace (ln * b * Q)%Z with (ln * Q * b)%Z by ring. replace (p' * b * L)%Z with (p' * L * b)%Z by ring.
+    apply Z.mul_lt_mono_pos_r; assumption.
+Qed.
+
+Lemma cross_lt_r (c d hn H p' Q : Z) : (0 < H)%Z -> (0 < d)%Z -> (0 < Q)%Z ->
+  (hn * d <= c * H)%Z -> (p' * H < hn * Q)%Z -> (p' * d < c * Q)%Z.
+Proof.
+  intros HH Hd HQ A B.
+  apply (Z.mul_lt_mono_pos_r H); [exact HH|].
+  apply Z.lt_le_trans with (hn * d * Q)%Z.
+  - replace (p' * d * H)%Z with (p' * H * d)%Z by ring. replace (hn * d * Q)%Z with (hn * Q * d)%Z by ring.
+    apply Z.mul_lt_mono_pos_r; assumption.
+  - replace (c * Q * H)%Z with (c * H * Q)%Z by ring. apply Z.mul_le_mono_nonneg_r; lia.
+Qed.
+
+(* a fraction strictly between two fractions a/b < c/d with b*c - a*d = 1 has a denominator >= b + d *)
+Lemma farey_between (a b c d p' q' : Z) : (0 < b)%Z -> (0 < d)%Z -> (b * c - a * d = 1)%Z ->
+  (a * q' < p' * b)%Z -> (p' * d < c * q')%Z -> (b + d <= q')%Z.
+Proof.
+  intros Hb Hd Hdet A B.
+  assert (q' * (b * c - a * d) = b * (c * q' - p' * d) + d * (p' * b - a * q'))%Z as E by ring.
+  rewrite Hdet, Z.mul_1_r in E.
+  assert (b * 1 <= b * (c * q' - p' * d))%Z by (apply Z.mul_le_mono_nonneg_l; lia).
+  assert (d * 1 <= d * (p' * b - a * q'))%Z by (apply Z.mul_le_mono_nonneg_l; lia).
+  lia.
+Qed.
+
+Theorem farey_minimal_sound x e p (q : positive) : farey_minimal x e p (Zpos q) = true ->
+  forall p' q', in_open x e (p' # q') -> (q <= q')%positive.
+Proof.
+  unfold farey_minimal. intros H p' q' [A B].
+  set (b := inv_mod p (Zpos q)) in *. set (a := ((p * b - 1) / Zpos q)%Z) in *.
+  apply andb_true_iff in H as [H H5]. apply andb_true_iff in H as [H H4]. apply andb_true_iff in H as [H H3].
+  apply andb_true_iff in H as [H1 H2].
+  apply Z.eqb_eq in H1. apply Z.ltb_lt in H2, H3. apply Z.leb_le in H4, H5.
+  unfold Qlt in A, B. cbn [Qnum Qden] in A, B.
+  assert (a * Zpos q' < p' * b)%Z as L1
+    by (apply (cross_lt_l a b (Qnum (x - e)) (Zpos (Qden (x - e))) p' (Zpos q')); try reflexivity; assumption).
+  assert (p' * (Zpos q - b) < (p - a) * Zpos q')%Z as L2
+    by (apply (cross_lt_r (p - a) (Zpos q - b) (Qnum (x + e)) (Zpos (Qden (x + e))) p' (Zpos q')); try reflexivity; assumption).
+  assert (b + (Zpos q - b) <= Zpos q')%Z as L3.
+  { apply (farey_between a b (p - a)%Z (Zpos q - b)%Z p' (Zpos q')); try assumption.
+    transitivity (p * b - a * Zpos q)%Z; [ring | exact H1]. }
+  lia.
 Qed.
 
 Theorem best_in_sound_large x e p (q : positive) : (400 < Zpos q)%Z -> best_in x e p (Zpos q) = true ->
-  in_open x e (p # q) /\ forall p' q', in_open x e (p' # q') -> (400 < Zpos q')%Z.
+  in_open x e (p # q) /\ forall p' q', in_open x e (p' # q') -> (q <= q')%positive.
 Proof.
   intros Hq H. unfold best_in in H. apply andb_true_iff in H as [Hin H]. apply in_openb_iff in Hin.
-  split; [exact Hin|]. intros p' q' [A B].
+  split; [exact Hin|].
   destruct (Z.leb_spec (Zpos q) 400) as [|_]; [lia|].
-  unfold none_below_400 in H.
-  destruct (Z_lt_le_dec 400 (Zpos q')) as [|Hs]; [assumption|exfalso].
-  rewrite <- (Qred_correct (x - e)) in A. rewrite <- (Qred_correct (x + e)) in B.
-  remember (Qred (x - e)) as lo. remember (Qred (x + e)) as hi.
-  destruct lo as [ln ld], hi as [hn hd]. unfold Qlt in A, B. cbn [Qnum Qden] in A, B, H.
-  apply (none_below_sound ln (Zpos ld) hn (Zpos hd) ltac:(reflexivity) ltac:(reflexivity) 400%nat 1%Z ltac:(reflexivity) H p' (Zpos q')).
-  - change (Z.of_nat 400) with 400%Z. lia.
-  - split; lia.
+  exact (farey_minimal_sound _ _ _ _ H).
 Qed.
 
+(* both branches together: whatever the denominator, an accepted result is a fraction of smallest denominator strictly
+   inside the interval *)
+Theorem best_in_sound_all x e p (q : positive) : best_in x e p (Zpos q) = true ->
+  in_open x e (p # q) /\ forall p' q', in_open x e (p' # q') -> (q <= q')%positive.
+Proof.
+  intro H. destruct (Z_le_gt_dec (Zpos q) 400) as [L|L].
+  - apply best_in_sound; assumption.
+  - apply best_in_sound_large; [lia | assumption].
+Qed.
+
+(* ---- round 6: completeness ---- *)
+Open Scope Z_scope.
+
+(* the Euclid loop: with enough fuel (the product r0*r1 at least halves in every round) it returns s with
+   s*p = gcd(r0, r1) (mod q) *)
+Lemma inv_loop_spec (p q : Z) : forall fuel r0 r1 s0 s1, 0 <= r1 < r0 -> r0 * r1 < 2 ^ Z.of_nat fuel ->
+  (exists k, s0 * p = r0 + k * q) -> (exists k, s1 * p = r1 + k * q) ->
+  exists k, inv_loop fuel r0 r1 s0 s1 * p = Z.gcd r0 r1 + k * q.
+Proof.
+  induction fuel as [|f IH]; intros r0 r1 s0 s1 R B [k0 E0] [k1 E1].
+  - cbn [inv_loop]. change (2 ^ Z.of_nat 0) with 1 in B. assert (r1 = 0) by nia. subst r1.
+    rewrite Z.gcd_0_r, Z.abs_eq by lia. exists k0; exact E0.
+  - cbn [inv_loop]. destruct (Z.eqb_spec r1 0) as [->|N].
+    + rewrite Z.gcd_0_r, Z.abs_eq by lia. exists k0; exact E0.
+    + assert (0 < r1) as P1 by lia.
+      pose proof (Z.mod_pos_bound r0 r1 P1) as M. pose proof (Z.div_mod r0 r1 N) as D.
+      assert (r0 - r0 / r1 * r1 = r0 mod r1) as Em by lia. rewrite Em.
+      assert (1 <= r0 / r1) as K1 by (apply Z.div_le_lower_bound; lia).
+      destruct (IH r1 (r0 mod r1) s1 (s0 - r0 / r1 * s1)) as [k E].
+      * lia.
+      * rewrite Nat2Z.inj_succ, Z.pow_succ_r in B by lia.
+        assert (2 * (r0 mod r1) < r0) by nia. nia.
+      * exists k1; exact E1.
+      * exists (k0 - r0 / r1 * k1). rewrite <- Em. nia.
+      * exists k. rewrite E. f_equal. rewrite (Z.gcd_comm r1), Z.gcd_mod by exact N. apply Z.gcd_comm.
+Qed.
+
+Lemma inv_mod_spec (p q : Z) : 1 < q -> Z.gcd p q = 1 ->
+  0 < inv_mod p q < q /\ exists k, p * inv_mod p q = 1 + k * q.
+Proof.
+  intros Hq G. unfold inv_mod.
+  set (fuel := S (2 * Z.to_nat (Z.log2 q + 1))).
+  destruct (inv_loop_spec p q fuel q (p mod q) 0 1) as [k E].
+  - pose proof (Z.mod_pos_bound p q ltac:(lia)). lia.
+  - pose proof (Z.mod_pos_bound p q ltac:(lia)) as M.
+    assert (q < 2 ^ (Z.log2 q + 1)) as L by (apply Z.log2_spec; lia).
+    pose proof (Z.log2_nonneg q) as L0.
+    unfold fuel. rewrite Nat2Z.inj_succ, Nat2Z.inj_mul, Z2Nat.id by lia. change (Z.of_nat 2) with 2.
+    replace (Z.succ (2 * (Z.log2 q + 1))) with (1 + (Z.log2 q + 1) + (Z.log2 q + 1)) by lia.
+    rewrite (Z.pow_add_r 2 (1 + (Z.log2 q + 1)) (Z.log2 q + 1)), (Z.pow_add_r 2 1 (Z.log2 q + 1)) by lia. change (2 ^ 1) with 2.
+    set (T := 2 ^ (Z.log2 q + 1)) in *.
+    assert (q * (p mod q) <= q * q) by (apply Z.mul_le_mono_nonneg_l; lia).
+    assert (q * q < T * T) by (apply Z.mul_lt_mono_nonneg; lia).
+    assert (0 <= q * q) by nia. replace (2 * T * T) with (2 * (T * T)) by ring. lia.
+  - exists (-1). lia.
+  - exists (p / q). rewrite Z.mod_eq by lia. ring.
+  - rewrite (Z.gcd_comm q (p mod q)), Z.gcd_mod, (Z.gcd_comm q p), G in E by lia.
+    set (s := inv_loop fuel q (p mod q) 0 1) in *.
+    pose proof (Z.mod_pos_bound s q ltac:(lia)) as M. pose proof (Z.div_mod s q ltac:(lia)) as D.
+    assert (p * (s mod q) = 1 + (k - p * (s / q)) * q) as Eb by nia.
+    split; [|exists (k - p * (s / q)); exact Eb].
+    split; [|lia]. destruct (Z.eq_dec (s mod q) 0) as [Z0|]; [|lia].
+    rewrite Z0 in Eb. exfalso. assert (q * (- (k - p * (s / q))) = 1) as U by lia.
+    apply Z.eq_mul_1 in U. lia.
+Qed.
+
+Open Scope Q_scope.
+Lemma in_open_r_compat x e r r' : r == r' -> in_open x e r -> in_open x e r'.
+Proof. intros H [A B]. unfold in_open. rewrite <- H. split; assumption. Qed.
+
+(* a fraction of smallest denominator inside the interval is in lowest terms *)
+Lemma minimal_reduced x e p (q : positive) : in_open x e (p # q) ->
+  (forall p' q', in_open x e (p' # q') -> (q <= q')%positive) -> Z.gcd p (Zpos q) = 1%Z.
+Proof.
+  intros Hin Hmin.
+  pose proof (Z.gcd_nonneg p (Zpos q)) as G0.
+  destruct (Z.gcd_divide_l p (Zpos q)) as [p1 Ep]. destruct (Z.gcd_divide_r p (Zpos q)) as [q1 Eq].
+  set (g := Z.gcd p (Zpos q)) in *.
+  assert (g <> 0)%Z as Gn by (intro Z0; rewrite Z0 in Eq; lia).
+  destruct (Z.eq_dec g 1) as [|N]; [assumption|exfalso].
+  assert (0 < q1)%Z as Q1 by nia.
+  assert (q1 < Zpos q)%Z as Q2 by nia.
+  assert (p1 # Z.to_pos q1 == p # q) as E.
+  { unfold Qeq. cbn [Qnum Qden]. rewrite Z2Pos.id by exact Q1. rewrite Eq, Ep at 1. ring. }
+  pose proof (Hmin p1 (Z.to_pos q1) (in_open_r_compat _ _ _ _ (Qeq_sym _ _ E) Hin)) as C.
+  assert (Zpos q <= Zpos (Z.to_pos q1))%Z by lia. rewrite Z2Pos.id in * by exact Q1. lia.
+Qed.
+
+(* completeness of the Farey criterion: a fraction of smallest denominator (> 1) inside the interval is accepted *)
+Theorem farey_minimal_complete x e p (q : positive) : (1 < Zpos q)%Z -> in_open x e (p # q) ->
+  (forall p' q', in_open x e (p' # q') -> (q <= q')%positive) -> farey_minimal x e p (Zpos q) = true.
+Proof.
+  intros Hq Hin Hmin.
+  pose proof (minimal_reduced _ _ _ _ Hin Hmin) as G.
+  destruct (inv_mod_spec p (Zpos q) Hq G) as [[B0 B1] [k E]].
+  unfold farey_minimal. set (b := inv_mod p (Zpos q)) in *.
+  assert ((p * b - 1) / Zpos q = k)%Z as Ea by (replace (p * b - 1)%Z with (k * Zpos q)%Z by lia; apply Z.div_mul; lia).
+  rewrite Ea. destruct Hin as [A B]. unfold Qlt in A, B. cbn [Qnum Qden] in A, B.
+  repeat (apply andb_true_iff; split).
+  - apply Z.eqb_eq. lia.
+  - apply Z.ltb_lt. lia.
+  - apply Z.ltb_lt. lia.
+  - apply Z.leb_le. destruct (Z_le_gt_dec (k * Zpos (Qden (x - e))) (Qnum (x - e) * b)) as [|C]; [assumption|exfalso].
+    assert (in_open x e (k # Z.to_pos b)) as I.
+    { split; unfold Qlt; cbn [Qnum Qden]; rewrite Z2Pos.id by lia; [lia|].
+      (* k/b < p/q < hi *)
+      apply (Z.mul_lt_mono_pos_r (Zpos q)); [reflexivity|].
+      apply Z.lt_trans with (p * b * Zpos (Qden (x + e)))%Z; [nia|].
+      replace (Qnum (x + e) * b * Zpos q)%Z with (Qnum (x + e) * Zpos q * b)%Z by ring.
+      replace (p * b * Zpos (Qden (x + e)))%Z with (p * Zpos (Qden (x + e)) * b)%Z by ring.
+      apply Z.mul_lt_mono_pos_r; lia. }
+    pose proof (Hmin _ _ I) as C2. assert (Zpos q <= Zpos (Z.to_pos b))%Z by lia. rewrite Z2Pos.id in * by lia. lia.
+  - apply Z.leb_le.
+    destruct (Z_le_gt_dec (Qnum (x + e) * (Zpos q - b)) ((p - k) * Zpos (Qden (x + e)))) as [|C]; [assumption|exfalso].
+    assert (in_open x e ((p - k) # Z.to_pos (Zpos q - b))) as I.
+    { split; unfold Qlt; cbn [Qnum Qden]; rewrite Z2Pos.id by lia; [|lia].
+      (* lo < p/q < c/d *)
+      apply (Z.mul_lt_mono_pos_r (Zpos q)); [reflexivity|].
+      apply Z.lt_trans with (p * (Zpos q - b) * Zpos (Qden (x - e)))%Z; [|nia].
+      replace (Qnum (x - e) * (Zpos q - b) * Zpos q)%Z with (Qnum (x - e) * Zpos q * (Zpos q - b))%Z by ring.
+      replace (p * (Zpos q - b) * Zpos (Qden (x - e)))%Z with (p * Zpos (Qden (x - e)) * (Zpos q - b))%Z by ring.
+      apply Z.mul_lt_mono_pos_r; lia. }
+    pose proof (Hmin _ _ I) as C2. assert (Zpos q <= Zpos (Z.to_pos (Zpos q - b)))%Z by lia.
+    rewrite Z2Pos.id in * by lia. lia.
+Qed.
+
+(* if some fraction with denominator q is inside, the first numerator above the lower end is *)
+Lemma first_above_inside x e q p' : in_open x e (p' # q) -> in_openb x e (first_above (x - e) q # q) = true.
+Proof.
+  intro H. destruct (in_openb x e (first_above (x - e) q # q)) eqn:E; [reflexivity|].
+  exfalso. exact (none_at _ _ _ E p' H).
+Qed.
+
+Lemma brute_from_complete x e p (q : positive) : in_open x e (p # q) ->
+  forall fuel q0, (q0 <= q)%positive -> (Pos.to_nat q < Pos.to_nat q0 + fuel)%nat ->
+  (forall p' q', (q0 <= q')%positive -> (q' < q)%positive -> ~ in_open x e (p' # q')) ->
+  exists p1, brute_from x e q0 fuel = Some (p1 # q).
+Proof.
+  intro Hin. induction fuel as [|f IH]; intros q0 L F Hno; [lia|].
+  cbn [brute_from].
+  destruct (Pos.eq_dec q0 q) as [->|N].
+  - rewrite (first_above_inside _ _ _ _ Hin). eexists; reflexivity.
+  - destruct (in_openb x e (first_above (x - e) q0 # q0)) eqn:E.
+    + exfalso. apply in_openb_iff in E. apply (Hno _ q0 ltac:(lia) ltac:(lia) E).
+    + apply IH; [lia | lia |]. intros p' q' A B. apply Hno; lia.
+Qed.
+
+(* round 6: the executable specification is EXACTLY the property's definition, for every denominator *)
+Theorem best_in_complete x e p (q : positive) : in_open x e (p # q) ->
+  (forall p' q', in_open x e (p' # q') -> (q <= q')%positive) -> best_in x e p (Zpos q) = true.
+Proof.
+  intros Hin Hmin. unfold best_in. apply andb_true_iff. split; [apply in_openb_iff, Hin|].
+  destruct (Z.leb_spec (Zpos q) 400).
+  - unfold brute. destruct (brute_from_complete x e p q Hin (Pos.to_nat q) 1%positive) as [p1 E].
+    + lia.
+    + lia.
+    + intros p' q' _ B I. specialize (Hmin _ _ I). lia.
+    + rewrite E. cbn [Qden]. apply Z.eqb_refl.
+  - apply farey_minimal_complete; [lia | exact Hin | exact Hmin].
+Qed.
+
+Theorem best_in_exact x e p (q : positive) : best_in x e p (Zpos q) = true <->
+  (in_open x e (p # q) /\ forall p' q', in_open x e (p' # q') -> (q <= q')%positive).
+Proof. split; [apply best_in_sound_all | intros [A B]; apply best_in_complete; assumption]. Qed.
